@@ -25,6 +25,10 @@ def add(prop, *vs):
 
 # ---------------------------------------------------------------- C02
 add("C02",
+    V("blank-string-returns-before-validation", "C02", [(INIT, "    parser = _default_parser\n", "    if isinstance(date_string, str) and not date_string.strip():\n        return None\n\n    parser = _default_parser\n")], "fire", "C02.R2",
+      note="seeded change C02-4: an invalid settings dict is accepted when the date string is blank"),
+    V("template-refers-to-dropped-group", "C02", [("dateparser/data/date_translation_data/da.py", '"(\\\\d+[.,]?\\\\d*)\\\\s*hr(s?)": "\\\\1 time\\\\2"', '"(\\\\d+[.,]?\\\\d*)\\\\s*hrs?": "\\\\1 time\\\\2"')], "fire", "C02.R5",
+      note="seeded change C02-3: regex.error (invalid group reference) for Danish strings with '<n> hr'"),
     V("period-time-handler-narrowed", "C02", [(PARSER, "                                meridian_index += 1\n                except Exception:\n                    pass", "                                meridian_index += 1\n                except ValueError:\n                    pass")], "fire", "C02.R1",
       note="'13.' as the last token: self.tokens[original_index + 1] raises IndexError"),
     V("century-choice-before-awareness-alignment", "C02", [(PARSER, "        if self._token_year and len(self._token_year[0]) == 2:\n            if self.now < dateobj:\n                if \"past\" in self.settings.PREFER_DATES_FROM:\n                    dateobj = dateobj.replace(year=dateobj.year - 100)\n            else:\n                if \"future\" in self.settings.PREFER_DATES_FROM:\n                    dateobj = dateobj.replace(year=dateobj.year + 100)\n\n", ""), (PARSER, "        # NOTE: If this assert fires, self.now needs to be made offset-aware in a similar\n", "        if self._token_year and len(self._token_year[0]) == 2:\n            if self.now < dateobj:\n                if \"past\" in self.settings.PREFER_DATES_FROM:\n                    dateobj = dateobj.replace(year=dateobj.year - 100)\n            else:\n                if \"future\" in self.settings.PREFER_DATES_FROM:\n                    dateobj = dateobj.replace(year=dateobj.year + 100)\n\n        # NOTE: If this assert fires, self.now needs to be made offset-aware in a similar\n")], "fire", "C02.R1",
